@@ -75,7 +75,12 @@ class FieldsWorld(World):
 
     # ------------------------------------------------------------------------------------------
     def _gen_shape(self, rng):
-        k = rng.below(10)
+        k = rng.below(20)
+        if k == 0:
+            return ["u", rng.choice([12, 16, 17, 31, 32, 33])]
+        if k == 1:
+            return ["s", rng.choice([12, 16, 17, 31, 32, 33])]
+        k //= 2
         if k < 5:
             return ["u", rng.range(0, 9)]
         if k < 8:
